@@ -186,6 +186,10 @@ func c20Cases(run *core.Run) []cliCase {
 	add("separate-file-existing", []treeFile{{Path: "a.js", Data: js}, {Path: "out.js", Data: "old output"}}, []string{"out.js"}, "-o", "out.js", "a.js")
 	add("separate-dir", []treeFile{{Path: "src/a.js", Data: js}, {Path: "src/sub/b.css", Data: css}, {Path: "src/sub/c.html", Data: html}}, nil, "-r", "-o", "out/", "src/")
 	add("separate-dir-nested-out", []treeFile{{Path: "src/a.js", Data: js}, {Path: "src/sub/b.css", Data: css}}, nil, "-r", "-o", "src/min/", "src/")
+	// inputs from different directories into one output directory: each is read only, whatever the others' directories
+	add("separate-dir-two-roots", []treeFile{{Path: "src/app.css", Data: css}, {Path: "lib/util.js", Data: js}}, nil, "-o", "out/", "src/app.css", "lib/util.js")
+	add("separate-dir-two-roots-recursive", []treeFile{{Path: "src/app.css", Data: css}, {Path: "lib/deep/util.js", Data: js}, {Path: "lib/x.html", Data: html}}, nil, "-r", "-o", "out/", "src/", "lib/")
+	add("inplace-two-roots", []treeFile{{Path: "src/app.css", Data: css}, {Path: "lib/util.js", Data: js}}, nil, "-o", ".", "src/app.css", "lib/util.js")
 	add("stdout", []treeFile{{Path: "a.js", Data: js}}, nil, "a.js")
 	add("bundle", []treeFile{{Path: "a.js", Data: js}, {Path: "b.js", Data: "let z = 3 ;\n"}}, nil, "-b", "-o", "out.js", "a.js", "b.js")
 	add("bundle-onto-first", []treeFile{{Path: "a.js", Data: js}, {Path: "b.js", Data: "let z = 3 ;\n"}}, nil, "-b", "-o", "a.js", "a.js", "b.js")
@@ -733,6 +737,16 @@ func runStraceP(root, logPath string, inject []string, c cliCase, _ *[]string) s
 				}
 				addP(filepath.Join(out, rel))
 				addP(filepath.Join(out, filepath.Dir(rel)))
+				// inputs named with their directory land under the output without (some of) it
+				for t := f.Path; ; {
+					j := strings.IndexByte(t, '/')
+					if j < 0 {
+						break
+					}
+					t = t[j+1:]
+					addP(filepath.Join(out, t))
+					addP(filepath.Join(out, filepath.Dir(t)))
+				}
 			}
 		}
 	}
